@@ -77,6 +77,7 @@ pub fn prop() -> HistProp {
         nontrivial,
         quick_cases: 300,
         thorough_cases: 10000,
+        pressure_cases: (0, 0),
         assumptions: vec!["untouched bytes of the sparse device read as zero", "FS-info free count in the generated volumes is exact (a recount of 2^26 entries is legitimately long)"],
     }
 }
